@@ -587,13 +587,22 @@ def quantile(x, q):
     if all(_conc(v) for v in xs) and _conc(q):
         import numpy as _np
         return float(_np.quantile(_np.array([float(v) for v in xs]), float(q)))
-    # all entries equal -> that value (the only case the harnesses rely on symbolically)
+    # all entries equal -> that value; otherwise an arbitrary value between the smallest and the largest entry (sound over-approximation
+    # of every interpolation rule)
     first = xs[0]
     ex = cur()
+    alleq = True
     for v in xs[1:]:
         if not bool(_sop(v, first, '==')):
-            raise NotImplementedError("quantile of non-constant symbolic data")
-    return first
+            alleq = False
+            break
+    if alleq:
+        return first
+    _sqrt_n[0] += 1
+    qv = z3.Real(f"quantile!{_sqrt_n[0]}")
+    lo, hi = min(Arr(xs)), max(Arr(xs))
+    ex.axiom(z3.And(qv >= EV.of(lo).v, qv <= EV.of(hi).v))
+    return EV(qv)
 
 
 def all(x):
